@@ -197,7 +197,7 @@ def register(reg):
             # no body bytes for HEAD requests and 1xx / 204 / 304: the wrapped iterable is the empty tuple,
             # and the result is still a ClosingIterator chained to Response.close
             "implies(no_body(self.status_code, environ['REQUEST_METHOD']), "
-            "        isinstance(result, ClosingIterator) and len(result.iterable) == 0 and result.ncallbacks == 1)",
+            "        isinstance(result, ClosingIterator) and result.iterable == () and result.ncallbacks == 1)",
             "implies(not no_body(self.status_code, environ['REQUEST_METHOD']) and self.direct_passthrough, result is self.response)",
             "implies(not no_body(self.status_code, environ['REQUEST_METHOD']) and not self.direct_passthrough, "
             "        isinstance(result, ClosingIterator) and result.ncallbacks == 1)",
